@@ -9,9 +9,27 @@ Reading guide
 * `Strings.f`          : the Python code of function `f`;  `FOStrings.f` : its F&O definition
 -/
 import EPV.Lemmas.Strings
+import EPV.Lemmas.StringsFind
+import EPV.Lemmas.StringsTranslate
+import EPV.Lemmas.StringsCodepoints
+import EPV.Lemmas.StringsNormalize
+import EPV.Lemmas.StringsUri
+import EPV.Lemmas.StringsCase
+import EPV.Lemmas.StringsJoin
 namespace EPV.C09
 open EPV.FOStrings (Str Num Err)
 open EPV
+
+/-- `%`, `0`–`9`, `A`–`F` are allowed characters: a bounded check -/
+local macro "decide_pct" : tactic => `(tactic| (
+  intro c hc
+  have hlt : c < 128 := by
+    unfold Strings.isPctChar at hc
+    simp only [Bool.or_eq_true, Bool.and_eq_true, decide_eq_true_eq, beq_iff_eq] at hc
+    omega
+  revert hc
+  revert c
+  decide))
 
 /-! ## fn:substring -/
 
@@ -66,5 +84,333 @@ theorem concat_eq_spec (args : List Str) : Strings.concat args = FOStrings.conca
 theorem string_length_append (a b : Str) :
     Strings.stringLength (Strings.concat [a, b]) = Strings.stringLength a + Strings.stringLength b := by
   simp [Strings.stringLength, Strings.concat]
+
+
+/-! ## substring-before / substring-after / contains / starts-with / ends-with -/
+
+/-- `contains(s,t)` of the code is true exactly when `s = u ++ t ++ v` for some `u`, `v`. -/
+theorem contains_iff (s t : Str) : Strings.contains s t = true ↔ FOStrings.Contains s t := by
+  unfold Strings.contains FOStrings.Contains
+  rw [Strings.pyIn_eq_find]
+  constructor
+  · intro h
+    cases hf : Strings.pyFind t s with
+    | none => simp [hf] at h
+    | some i =>
+      obtain ⟨h1, h2, _⟩ := (Strings.pyFind_eq_some_iff t s i).mp hf
+      obtain ⟨u, v, huv, _⟩ := (Strings.occAt_iff t s i h2).mp h1
+      exact ⟨u, v, huv⟩
+  · rintro ⟨u, v, huv⟩
+    cases hf : Strings.pyFind t s with
+    | some i => rfl
+    | none =>
+      have hn := (Strings.pyFind_eq_none_iff t s).mp hf u.length (by simp [huv])
+      have := (Strings.occAt_iff t s u.length (by simp [huv])).mpr ⟨u, v, huv, rfl⟩
+      simp [hn] at this
+
+/-- Headline: whenever `contains(s,t)`, `concat(substring-before(s,t), t, substring-after(s,t)) = s`. -/
+theorem before_after_concat (s t : Str) (h : Strings.contains s t = true) :
+    Strings.substringBefore s t ++ t ++ Strings.substringAfter s t = s := by
+  unfold Strings.contains at h
+  rw [Strings.pyIn_eq_find] at h
+  unfold Strings.substringBefore Strings.substringAfter
+  cases hf : Strings.pyFind t s with
+  | none => simp [hf] at h
+  | some i =>
+    obtain ⟨h1, h2, _⟩ := (Strings.pyFind_eq_some_iff t s i).mp hf
+    simp only
+    unfold Strings.occAt at h1
+    rw [List.isPrefixOf_iff_prefix, List.prefix_iff_eq_append] at h1
+    rw [List.append_assoc, ← List.drop_drop, h1, List.take_append_drop]
+
+/-- `substring-before(s,t)` ends at the *first* occurrence of `t`: `t` follows it in `s`, and no
+occurrence of `t` starts earlier.  (When `t` does not occur the result is empty.) -/
+theorem substring_before_first (s t : Str) (h : Strings.contains s t = true) :
+    FOStrings.OccursAt s t (Strings.substringBefore s t).length ∧
+    ∀ j, FOStrings.OccursAt s t j → (Strings.substringBefore s t).length ≤ j := by
+  unfold Strings.contains at h
+  rw [Strings.pyIn_eq_find] at h
+  unfold Strings.substringBefore
+  cases hf : Strings.pyFind t s with
+  | none => simp [hf] at h
+  | some i =>
+    obtain ⟨h1, h2, h3⟩ := (Strings.pyFind_eq_some_iff t s i).mp hf
+    have hl : (s.take i).length = i := by simp; omega
+    simp only [hl]
+    refine ⟨(Strings.occAt_iff t s i h2).mp h1, ?_⟩
+    intro j hj
+    apply Nat.le_of_not_lt
+    intro hlt
+    have hjs : j ≤ s.length := by omega
+    have := (Strings.occAt_iff t s j hjs).mpr hj
+    simp [h3 j hlt] at this
+
+theorem substring_before_none (s t : Str) (h : Strings.contains s t = false) :
+    Strings.substringBefore s t = [] ∧ Strings.substringAfter s t = [] := by
+  unfold Strings.contains at h
+  rw [Strings.pyIn_eq_find] at h
+  unfold Strings.substringBefore Strings.substringAfter
+  cases hf : Strings.pyFind t s with
+  | none => exact ⟨rfl, rfl⟩
+  | some i => simp [hf] at h
+
+/-- the code's `substring-before` / `substring-after` / `contains` are the executable spec functions
+(which try every offset in turn) -/
+theorem substring_before_eq_spec (s t : Str) :
+    Strings.substringBefore s t = FOStrings.substringBefore s t := by
+  unfold Strings.substringBefore FOStrings.substringBefore
+  rw [Strings.firstOcc_eq_pyFind]
+  cases Strings.pyFind t s <;> rfl
+
+theorem substring_after_eq_spec (s t : Str) :
+    Strings.substringAfter s t = FOStrings.substringAfter s t := by
+  unfold Strings.substringAfter FOStrings.substringAfter
+  rw [Strings.firstOcc_eq_pyFind]
+  cases Strings.pyFind t s <;> rfl
+
+theorem contains_eq_spec (s t : Str) : Strings.contains s t = FOStrings.contains s t := by
+  unfold Strings.contains FOStrings.contains
+  rw [Strings.firstOcc_eq_pyFind, Strings.pyIn_eq_find]
+
+/-- `starts-with(s,t)` is true exactly when `t` is a prefix of `s`. -/
+theorem starts_with_iff_prefix (s t : Str) :
+    Strings.startsWith s t = true ↔ FOStrings.StartsWith s t := by
+  unfold Strings.startsWith Strings.pyStartsWith FOStrings.StartsWith
+  rw [List.isPrefixOf_iff_prefix]
+  constructor
+  · rintro ⟨v, hv⟩; exact ⟨v, hv.symm⟩
+  · rintro ⟨v, hv⟩; exact ⟨v, hv.symm⟩
+
+theorem starts_with_eq_spec (s t : Str) : Strings.startsWith s t = FOStrings.startsWith s t := by
+  unfold Strings.startsWith Strings.pyStartsWith FOStrings.startsWith
+  rw [Bool.eq_iff_iff, List.isPrefixOf_iff_prefix, List.prefix_iff_eq_take, beq_iff_eq]
+  exact eq_comm
+
+/-- `ends-with(s,t)` is true exactly when `t` is a suffix of `s`. -/
+theorem ends_with_iff_suffix (s t : Str) :
+    Strings.endsWith s t = true ↔ FOStrings.EndsWith s t := by
+  unfold Strings.endsWith Strings.pyEndsWith FOStrings.EndsWith
+  rw [List.isPrefixOf_iff_prefix, List.reverse_prefix]
+  constructor
+  · rintro ⟨u, hu⟩; exact ⟨u, hu.symm⟩
+  · rintro ⟨u, hu⟩; exact ⟨u, hu.symm⟩
+
+theorem ends_with_eq_spec (s t : Str) : Strings.endsWith s t = FOStrings.endsWith s t := by
+  rw [Bool.eq_iff_iff, ends_with_iff_suffix]
+  unfold FOStrings.endsWith FOStrings.EndsWith
+  simp only [Bool.and_eq_true, decide_eq_true_eq, beq_iff_eq]
+  constructor
+  · rintro ⟨u, rfl⟩
+    refine ⟨by simp, ?_⟩
+    simp
+  · rintro ⟨hl, hd⟩
+    have := List.take_append_drop (s.length - t.length) s
+    rw [hd] at this
+    exact ⟨s.take (s.length - t.length), this.symm⟩
+
+/-! ## translate -/
+
+/-- Headline: `translate` of the code is the F&O function: a character not in the map string is
+kept; otherwise the *first* position M of the character in the map string decides — replaced by the
+M-th character of the trans string, or dropped when the trans string is too short. -/
+theorem translate_eq_spec (arg map trans : Str) :
+    Strings.translate arg map trans = FOStrings.translate arg map trans :=
+  Strings.translate_eq_spec arg map trans
+
+/-- test (literals): the inputs on which the pinned tree failed (F09b) -/
+example : Strings.translate [97, 98, 99, 97] [97, 97] [120, 121] = [120, 98, 99, 120] ∧
+    Strings.translate [97, 98, 97] [97, 98, 97] [120] = [120, 120] := by decide
+
+
+/-! ## normalize-space -/
+
+/-- `normalize-space` of the code (replace TAB/LF/CR by space, split at spaces, drop empty pieces,
+join with one space) is the F&O function: strip leading and trailing XML whitespace, then replace
+every maximal run of whitespace by one #x20. -/
+theorem normalize_space_eq_spec (s : Str) :
+    Strings.normalizeSpace s = FOStrings.normalizeSpace s :=
+  Strings.normalizeSpace_eq_spec s
+
+/-- `normalize-space(normalize-space(s)) = normalize-space(s)`. -/
+theorem normalize_space_idempotent (s : Str) :
+    Strings.normalizeSpace (Strings.normalizeSpace s) = Strings.normalizeSpace s :=
+  Strings.normalizeSpace_idempotent s
+
+/-- test (literals): NBSP and U+3000 are not XML whitespace (F09c) -/
+example : Strings.normalizeSpace [32, 97, 0xA0, 9, 10, 98, 0x3000, 32] = [97, 0xA0, 32, 98, 0x3000] := by
+  decide
+
+/-! ## codepoints-to-string / string-to-codepoints -/
+
+/-- Headline: `codepoints-to-string(string-to-codepoints(s)) = s` for every string of XML characters … -/
+theorem codepoints_roundtrip (s : Str) (h : ∀ c ∈ s, FOStrings.IsXmlChar (c : Int)) :
+    Strings.codepointsToString (Strings.stringToCodepoints s) = .ok s :=
+  Strings.codepoints_roundtrip s h
+
+/-- … and FOCH0001 as soon as one code point is not an XML character (so the hypothesis above is
+exactly the domain of the round trip, not a convenience). -/
+theorem codepoints_roundtrip_error (s : Str) (h : ∃ c ∈ s, ¬ FOStrings.IsXmlChar (c : Int)) :
+    Strings.codepointsToString (Strings.stringToCodepoints s) = .error .FOCH0001 :=
+  Strings.codepoints_roundtrip_error s h
+
+/-- the hypothesis is satisfiable on a non-trivial string (ASCII, astral, BMP edge) — and fails on NUL -/
+example : (∀ c ∈ [65, 0x1F600, 0xFFFD, 9], FOStrings.IsXmlChar ((c : Nat) : Int)) ∧
+    Strings.codepointsToString (Strings.stringToCodepoints [65, 0]) = .error .FOCH0001 :=
+  ⟨by decide, rfl⟩
+
+/-- the other direction: when `codepoints-to-string(l)` succeeds with `s`, then
+`string-to-codepoints(s) = l` and every element of `l` is an XML character. -/
+theorem codepoints_to_string_inverse (l : List Int) (s : Str)
+    (h : Strings.codepointsToString l = .ok s) :
+    Strings.stringToCodepoints s = l ∧ ∀ v ∈ l, FOStrings.IsXmlChar v :=
+  Strings.codepointsToString_ok l s h
+
+theorem codepoints_to_string_eq_spec (l : List Int) :
+    Strings.codepointsToString l = FOStrings.codepointsToString l :=
+  Strings.codepointsToString_eq_spec l
+
+theorem string_to_codepoints_eq_spec (s : Str) :
+    Strings.stringToCodepoints s = FOStrings.stringToCodepoints s :=
+  Strings.stringToCodepoints_eq_spec s
+
+/-! ## compare / codepoint-equal (Unicode code-point collation) -/
+
+/-- `compare(a,b)` is −1 exactly when `a` sorts before `b` (first differing code point smaller, or
+proper prefix), 0 exactly when `a = b`, and 1 exactly when `b` sorts before `a`. -/
+theorem compare_iff (a b : Str) :
+    (Strings.compare a b = -1 ↔ FOStrings.CpLt a b) ∧
+    (Strings.compare a b = 0 ↔ a = b) ∧
+    (Strings.compare a b = 1 ↔ FOStrings.CpLt b a) := by
+  rw [Strings.compare_eq_spec]
+  refine ⟨Strings.specCompare_lt_iff a b, Strings.specCompare_eq_iff a b, ?_⟩
+  constructor
+  · intro h
+    rcases Strings.cpLt_trichotomy a b with h1 | h1 | h1
+    · have := (Strings.specCompare_lt_iff a b).mpr h1; omega
+    · have := (Strings.specCompare_eq_iff a b).mpr h1; omega
+    · exact h1
+  · intro h
+    rcases Strings.specCompare_range a b with h1 | h1 | h1
+    · exact absurd (Strings.cpLt_trans _ _ _ ((Strings.specCompare_lt_iff a b).mp h1) h)
+        (Strings.cpLt_irrefl a)
+    · have := (Strings.specCompare_eq_iff a b).mp h1
+      subst this
+      exact absurd h (Strings.cpLt_irrefl a)
+    · exact h1
+
+/-- the order behind `compare` is a strict total order on strings -/
+theorem codepoint_order_strict_total :
+    (∀ a, ¬ FOStrings.CpLt a a) ∧
+    (∀ a b c, FOStrings.CpLt a b → FOStrings.CpLt b c → FOStrings.CpLt a c) ∧
+    (∀ a b, FOStrings.CpLt a b ∨ a = b ∨ FOStrings.CpLt b a) :=
+  ⟨Strings.cpLt_irrefl, Strings.cpLt_trans, Strings.cpLt_trichotomy⟩
+
+theorem compare_eq_spec (a b : Str) : Strings.compare a b = FOStrings.compare a b :=
+  Strings.compare_eq_spec a b
+
+/-- `codepoint-equal(a,b)` is true exactly when the two strings are the same code-point sequence. -/
+theorem codepoint_equal_iff (a b : Str) : Strings.codepointEqual a b = true ↔ a = b :=
+  Strings.codepointEqual_iff a b
+
+theorem codepoint_equal_eq_spec (a b : Str) :
+    Strings.codepointEqual a b = FOStrings.codepointEqual a b := by
+  rw [Bool.eq_iff_iff, codepoint_equal_iff]
+  simp [FOStrings.codepointEqual]
+
+/-! ## string-join -/
+
+theorem string_join_eq_spec (items : List Str) (sep : Str) :
+    Strings.stringJoin items sep = FOStrings.stringJoin items sep :=
+  Strings.pyJoin_eq_intercalate sep items
+
+/-! ## upper-case / lower-case (case tables are parameters: CPython's) -/
+
+/-- `upper-case` maps every character independently (`str.upper()` is context free). -/
+theorem upper_case_eq_spec (up : Nat → Str) (s : Str) :
+    Strings.upperCase up s = FOStrings.upperCase up s := rfl
+
+theorem upper_case_append (up : Nat → Str) (a b : Str) :
+    Strings.upperCase up (a ++ b) = Strings.upperCase up a ++ Strings.upperCase up b := by
+  simp [Strings.upperCase]
+
+/-- `lower-case`: CPython's loop (`handle_capital_sigma` scanning backwards and forwards over
+case-ignorable characters) computes the positional Final_Sigma rule, for any tables. -/
+theorem lower_case_eq_spec (lo : Nat → Str) (cased ign : Nat → Bool) (s : Str) :
+    Strings.lowerCase lo cased ign s = FOStrings.lowerCase lo cased ign s :=
+  Strings.lowerCase_eq_spec lo cased ign s
+
+/-! ## encode-for-uri / iri-to-uri / escape-html-uri -/
+
+/-- `urllib.parse.quote` (encode the whole string to UTF-8, then quote byte by byte against the
+safe set) is the F&O character-wise definition (a character outside the allowed set is replaced by
+the `%HH` of each of its UTF-8 octets) — including the error for surrogate code points. -/
+theorem encode_for_uri_eq_spec (s : Str) : Strings.encodeForUri s = FOStrings.encodeForUri s :=
+  Strings.encodeForUri_eq_spec s
+
+theorem iri_to_uri_eq_spec (s : Str) : Strings.iriToUri s = FOStrings.iriToUri s :=
+  Strings.iriToUri_eq_spec s
+
+theorem escape_html_uri_eq_spec (s : Str) : Strings.escapeHtmlUri s = FOStrings.escapeHtmlUri s :=
+  Strings.escapeHtmlUri_eq_spec s
+
+/-- CPython's shift-and-mask UTF-8 encoder is the RFC 3629 table. -/
+theorem utf8_eq_rfc3629 (c : Nat) : Strings.utf8Char c = FOStrings.utf8 c :=
+  Strings.utf8Char_eq_spec c
+
+/-- `iri-to-uri` and `escape-html-uri` are idempotent (`%` and the hex digits are allowed
+characters of both); `encode-for-uri` is not (`%` is escaped to `%25`). -/
+theorem iri_to_uri_idempotent (s r : Str) (h : Strings.iriToUri s = .ok r) :
+    Strings.iriToUri r = .ok r := by
+  rw [iri_to_uri_eq_spec] at h ⊢
+  exact Strings.escape_idempotent FOStrings.iriAllowed (by decide_pct) s r h
+
+theorem escape_html_uri_idempotent (s r : Str) (h : Strings.escapeHtmlUri s = .ok r) :
+    Strings.escapeHtmlUri r = .ok r := by
+  rw [escape_html_uri_eq_spec] at h ⊢
+  exact Strings.escape_idempotent FOStrings.htmlAllowed (by decide_pct) s r h
+
+theorem encode_for_uri_not_idempotent :
+    Strings.encodeForUri [0x20] = .ok [0x25, 0x32, 0x30] ∧
+    Strings.encodeForUri [0x25, 0x32, 0x30] = .ok [0x25, 0x32, 0x35, 0x32, 0x30] := ⟨rfl, rfl⟩
+
+/-- every character of an `encode-for-uri` result is unreserved or one of `%`, `0`–`9`, `A`–`F` -/
+theorem encode_for_uri_output (s r : Str) (h : Strings.encodeForUri s = .ok r) :
+    ∀ c ∈ r, FOStrings.unreserved c = true ∨ Strings.isPctChar c = true := by
+  rw [encode_for_uri_eq_spec] at h
+  exact Strings.escape_output FOStrings.unreserved s r h
+
+
+/-! ## arguments that may be the empty sequence (`xs:string?`) -/
+
+/-- the `default=''` of `get_argument` is the F&O "empty sequence is treated as the zero-length string" -/
+theorem arg_default_eq_spec (a : Option Str) : Strings.argDefault a = FOStrings.orEmpty a := by
+  cases a <;> rfl
+
+/-- `compare` / `codepoint-equal` return the empty sequence exactly when an argument is one -/
+theorem none_if_either_none_eq_spec {α : Type} (f g : Str → Str → α) (h : ∀ a b, f a b = g a b)
+    (x y : Option Str) : Strings.noneIfEitherNone f x y = FOStrings.lift2 g x y := by
+  cases x <;> cases y <;> simp [Strings.noneIfEitherNone, FOStrings.lift2, h]
+
+/-- `translate` with possibly-empty arguments, XPath 2.0+ (no compatibility mode): XPTY0004 when the
+map or trans string is the empty sequence, the F&O function on `orEmpty arg` otherwise. -/
+theorem fn_translate_eq_spec (arg m t : Option Str) :
+    Strings.fnTranslate false arg m t = FOStrings.fnTranslate arg m t := by
+  cases m <;> cases t <;> cases arg <;>
+    simp [Strings.fnTranslate, Strings.getArgument, FOStrings.fnTranslate, FOStrings.required,
+      Strings.argDefault, FOStrings.orEmpty, Strings.translate_eq_spec, bind, Except.bind, pure, Except.pure]
+
+/-- `translate` in XPath 1.0 (compatibility mode, the XPath1Parser): an empty node-set argument is
+the empty string, never an error. -/
+theorem fn_translate_xpath1_eq_spec (arg m t : Option Str) :
+    Strings.fnTranslate true arg m t = .ok (FOStrings.fnTranslate10 arg m t) := by
+  cases m <;> cases t <;> cases arg <;>
+    simp [Strings.fnTranslate, Strings.getArgument, FOStrings.fnTranslate10,
+      Strings.argDefault, FOStrings.orEmpty, Strings.translate_eq_spec]
+
+theorem fn_string_join_eq_spec (items : List Str) (sep : Option Str) :
+    Strings.fnStringJoin items sep = FOStrings.fnStringJoin items sep := by
+  cases sep <;>
+    simp [Strings.fnStringJoin, FOStrings.fnStringJoin, FOStrings.required, string_join_eq_spec,
+      bind, Except.bind, pure, Except.pure]
 
 end EPV.C09
